@@ -32,6 +32,8 @@ const (
 	sigInPanic = "C09/panic/in-operator-on-indexed-field-unclosed-iterator"
 	// _min/_max over the documents of a list relation: a null value resets the running result
 	sigMinMax = "C09/aggregate/min-max-reset-by-null-related-value"
+	// the count of holders selected next to a filter through the relation, on an inverted join
+	sigCountNextToFilter = "C09/count-of-holders-next-to-relation-filter/inverted/wrong-row-content"
 )
 
 // knownSigs are the signatures the diagnosers can produce.
